@@ -93,17 +93,33 @@ def obsTok (toks : List (Nat × JWS)) (t : String) : List Obs :=
     [.finish cid (outcomeOf cls pid)]
   | _ => []
 
+/-- calls that a step's observations show parked at the schedule point in front of `keysFromRemote`'s critical section -/
+def reachedLock (obs : List String) : List Nat :=
+  obs.filterMap fun t =>
+    match t.splitOn "." with
+    | ["h", p, "lock"] => if p.startsWith "c" then some (numAfter p 1) else none
+    | _ => none
+
+/-- the observations of the steps, given the calls currently parked in front of `keysFromRemote`: releasing such a call (`go`) is
+    the instant it turns to the endpoint (`ask`) -/
+def obsFrom (toks : List (Nat × JWS)) : List Nat → List Step → List Obs
+  | _, [] => []
+  | atLock, s :: rest =>
+    let tail := s.obs.flatMap (obsTok toks)
+    let here : List Obs := match s.kind with
+      | "rot" => [Obs.rotate s.keys]
+      | "start" => Obs.start s.id s.tok :: tail
+      | "cancel" => Obs.cancel s.id :: tail
+      | "resp" => Obs.fetchEnd s.id (some s.ans) :: tail
+      | "go" => if atLock.contains s.id then Obs.ask s.id :: tail else tail
+      | _ => tail
+    let atLock' := (if s.kind == "go" then atLock.filter (· != s.id) else atLock) ++ reachedLock s.obs
+    here ++ obsFrom toks atLock' rest
+
 /-- the observed run of a line -/
 def observations (steps : List Step) : List Obs :=
   let toks := steps.filterMap fun s => if s.kind == "start" then some (s.id, s.tok) else none
-  steps.flatMap fun s =>
-    let tail := s.obs.flatMap (obsTok toks)
-    match s.kind with
-    | "rot" => [Obs.rotate s.keys]
-    | "start" => Obs.start s.id s.tok :: tail
-    | "cancel" => Obs.cancel s.id :: tail
-    | "resp" => Obs.fetchEnd s.id (some s.ans) :: tail
-    | _ => tail
+  obsFrom toks [] steps
 
 def outcomesText (steps : List Step) : String :=
   let fins := steps.flatMap fun s => s.obs.filter (·.startsWith "fin.")
